@@ -1107,3 +1107,93 @@ async fn d28_windowed_history_ignores_barrier_above_the_window() {
 	let listed = win.seek_first().unwrap();
 	assert!(!listed, "D28: history(ts 5..20) lists a version that the hard delete at ts 30 erased");
 }
+
+// D30: a commit whose apply (or WAL write) fails returns at once and gives its semaphore permit back, but its queue slot
+// is only freed when publish() can dequeue it, i.e. after every EARLIER batch has been applied.  While one earlier commit
+// is slow in apply, seven failing commits leave seven occupied slots behind; the next commit is admitted by the semaphore
+// and panics in enqueue ("commit queue overflow - should not be reached").
+mod d30 {
+	use std::sync::atomic::{AtomicBool, AtomicU64, Ordering};
+	use std::sync::Arc;
+
+	use crate::batch::Batch;
+	use crate::commit::{CommitEnv, CommitPipeline};
+	use crate::error::{Error, Result};
+	use crate::InternalKeyKind;
+
+	struct StallProvider;
+	impl crate::stall::WriteStallCountProvider for StallProvider {
+		fn get_stall_counts(&self) -> crate::stall::StallCounts {
+			crate::stall::StallCounts { immutable_memtables: 0, l0_files: 0 }
+		}
+	}
+
+	struct Env {
+		release_slow: AtomicBool,
+		slow_started: AtomicBool,
+	}
+	impl CommitEnv for Env {
+		fn write(&self, batch: &Batch, seq_num: u64, _sync: bool) -> Result<Batch> {
+			let mut nb = Batch::new(seq_num);
+			for e in batch.entries() {
+				nb.add_record(e.kind, e.key.clone(), e.value.clone(), e.timestamp)?;
+			}
+			Ok(nb)
+		}
+		fn apply(&self, batch: &Batch) -> Result<()> {
+			let slow = batch.entries().iter().any(|e| e.key.starts_with(b"slow"));
+			if slow {
+				self.slow_started.store(true, Ordering::SeqCst);
+				while !self.release_slow.load(Ordering::SeqCst) {
+					std::thread::sleep(std::time::Duration::from_millis(5));
+				}
+				Ok(())
+			} else {
+				Err(Error::CommitFail("injected apply failure".into()))
+			}
+		}
+		fn check_background_error(&self) -> Result<()> {
+			Ok(())
+		}
+		fn oldest_active_start_seq(&self) -> u64 {
+			0
+		}
+	}
+
+	fn one(key: &str) -> Batch {
+		let mut b = Batch::new(0);
+		b.add_record(InternalKeyKind::Set, key.as_bytes().to_vec(), Some(b"v".to_vec()), 0).unwrap();
+		b
+	}
+
+	#[tokio::test(flavor = "multi_thread", worker_threads = 4)]
+	async fn d30_failed_commits_behind_a_slow_one_overflow_the_queue() {
+		let env = Arc::new(Env { release_slow: AtomicBool::new(false), slow_started: AtomicBool::new(false) });
+		let provider: Arc<dyn crate::stall::WriteStallCountProvider> = Arc::new(StallProvider);
+		let stall = Arc::new(crate::stall::WriteStallController::new(provider, crate::stall::StallThresholds { memtable_limit: 2, l0_file_limit: 12 }));
+		let p = Arc::new(CommitPipeline::new(Arc::clone(&env) as Arc<dyn CommitEnv>, Arc::new(AtomicU64::new(0)), stall));
+		let p1 = Arc::clone(&p);
+		let slow = tokio::spawn(async move { p1.commit(one("slow"), false, 0).await });
+		while !env.slow_started.load(Ordering::SeqCst) {
+			tokio::time::sleep(std::time::Duration::from_millis(5)).await;
+		}
+		// the slow commit holds 1 of 8 permits and slot 0; every commit below fails in apply and must simply return Err
+		let p2 = Arc::clone(&p);
+		let failing = tokio::spawn(async move {
+			for i in 0..12 {
+				let r = p2.commit(one(&format!("k{i}")), false, 0).await;
+				assert!(r.is_err());
+			}
+		});
+		// the slow apply finishes a little later (with the repaired pipeline the failing commits wait for their slot to be
+		// dequeued behind it, so it must not be held until they are done)
+		let env2 = Arc::clone(&env);
+		tokio::spawn(async move {
+			tokio::time::sleep(std::time::Duration::from_millis(300)).await;
+			env2.release_slow.store(true, Ordering::SeqCst);
+		});
+		let res = tokio::time::timeout(std::time::Duration::from_secs(20), failing).await.expect("D30: commits did not return");
+		let _ = slow.await;
+		assert!(res.is_ok(), "D30: a failing commit behind a slow one panicked instead of returning an error: {:?}", res.err());
+	}
+}
